@@ -10,7 +10,7 @@ write are atomic".
 """
 import json
 from nl import core, locks
-from nl.core import origins, callee, callee_decl, is_log, enum_switches, const_val
+from nl.core import origins, callee, callee_decl, is_log, enum_switches, const_val, bool_switches
 from nl.model import short
 
 RULES = {
@@ -23,6 +23,9 @@ RULES = {
              'the map entry whenever the lookup finds one (tombstones included); a literal version is used only where the lookup found nothing',
     'C02.f': 'a successful mutation makes the version grow: the version stored by the increment for an existing key is old.version + 1 '
              '(an addition on the old entry\'s version); a plain copy of the old version is stored only under the in-conflict-marker test',
+    'C02.h': 'the in-conflict marker cannot be forged: a version that a client supplies (a non-constant `version` of a Request::Set built '
+             'by a parser) is compared with a lower bound, and the branch taken for the marker value refuses — the marker version makes '
+             'the store skip its comparison (allow_save_version)',
     'C02.g': 'the store refuses on the version it WOULD store: the branch that builds VersionError is controlled by a comparison between the '
              'result of next_version and the stored version (directly, or in a helper that receives that result) — a test on the presented '
              'version lets a write through whose stored version cannot grow (saturated), so two writers with the same base both succeed',
@@ -184,6 +187,7 @@ def run(ck, m):
                       '%s inserts a Value built with the literal version %s: %s' % (short(b.id), lit, why), b.loc(bi))
     ck.floor('C02.b', nb, 2, 'inserts into the shared Database.map')
     success_implies_write(ck, m)
+    marker_unforgeable(ck, m)
     # ---- C02.c -------------------------------------------------------------------------
     rb = resolver_fn(m)
     sw = strategy_switch(m, rb)
@@ -504,3 +508,93 @@ def _pure_lookup(m, b, roots, depth=0):
                    'rejected by the predicate (a tombstone) is replaced by a fresh Value and loses its disk offsets, state and version'
                    % d.split('::')[-1])
     return False, why
+
+
+_CMP = {'Lt': lambda a, c: a < c, 'Le': lambda a, c: a <= c, 'Gt': lambda a, c: a > c, 'Ge': lambda a, c: a >= c,
+        'Eq': lambda a, c: a == c, 'Ne': lambda a, c: a != c}
+_FLIP = {'Lt': 'Gt', 'Le': 'Ge', 'Gt': 'Lt', 'Ge': 'Le', 'Eq': 'Eq', 'Ne': 'Ne'}
+
+
+def _marker_value(m):
+    """the constant a change's version is compared with by the predicate that lets the store skip its version comparison"""
+    sb = store_fn(m)
+    P = m.prog
+    vals = set()
+    for _, t in sb.calls():
+        cb = P.bodies.get(callee(t))
+        if cb is None or cb.locals[0] != 'bool' or cb.argc != 1 or not cb.locals[1].endswith('bo::Change'):
+            continue
+        stack, seen = [cb], set()
+        while stack:
+            x = stack.pop()
+            if x.id in seen:
+                continue
+            seen.add(x.id)
+            for bl in x.blocks:
+                for s in bl['s']:
+                    if s['k'] == 'assign' and s['r']['k'] == 'bin' and s['r']['op'] in ('Eq', 'Ne'):
+                        for o in (s['r']['a'], s['r']['b']):
+                            for r in origins(x, o):
+                                v = const_val(r)
+                                if isinstance(v, int) and v < -1:
+                                    vals.add(v)
+            for _, t2 in x.calls():
+                c2 = P.bodies.get(callee(t2))
+                if c2 is not None and c2.locals[0] == 'bool' and c2.argc == 1:
+                    stack.append(c2)
+    return vals
+
+
+def marker_unforgeable(ck, m):
+    P = m.prog
+    marks = _marker_value(m)
+    ck.floor('C02.h', len(marks), 1, 'marker constants compared by the predicate that lets the store skip its comparison')
+    if not marks:
+        return
+    n = 0
+    for b in P.user_bodies():
+        if b.id.startswith(('nundb::client::', 'nundb::command_line::')):
+            continue
+        for X, bl in enumerate(b.blocks):
+            if bl.get('cleanup'):
+                continue
+            for s in bl['s']:
+                if not (s['k'] == 'assign' and s['r']['k'] == 'agg' and s['r'].get('adt', '').endswith('bo::Request')
+                        and s['r'].get('variant') == 'Set' and 'version' in s['r'].get('fields', [])):
+                    continue
+                o = s['r']['ops'][s['r']['fields'].index('version')]
+                roots = set(origins(b, o))
+                if not any(r[0] == 'call' for r in roots):
+                    continue            # the unversioned `set` passes the constant "no version"; a derived Clone copies a field
+                n += 1
+                # a place holding the parsed number: locals assigned from the same roots
+                refused = set()
+                for Y, bl2 in enumerate(b.blocks):
+                    for s2 in bl2['s']:
+                        if not (s2['k'] == 'assign' and s2['r']['k'] == 'bin' and s2['r']['op'] in _CMP):
+                            continue
+                        a_, c_ = s2['r']['a'], s2['r']['b']
+                        op = s2['r']['op']
+                        ra, rc = set(origins(b, a_)), set(origins(b, c_))
+                        if rc & roots and all(r[0] == 'const' for r in ra):
+                            a_, c_, ra, rc, op = c_, a_, rc, ra, _FLIP[op]
+                        if not (ra & roots) or not rc or not all(r[0] == 'const' for r in rc):
+                            continue
+                        cs = [const_val(r) for r in rc]
+                        if len(cs) != 1 or not isinstance(cs[0], int):
+                            continue
+                        dl = s2['l']['l'] if 'l' in s2 and isinstance(s2['l'], dict) else None
+                        if dl is None:
+                            continue
+                        for (_sw, tt, ft) in bool_switches(b, local=dl):
+                            for mk in marks:
+                                taken = tt if _CMP[op](mk, cs[0]) else ft
+                                if X not in b.reach_from([taken], include_start=True):
+                                    refused.add(mk)
+                missing = sorted(marks - refused)
+                ck.ob('C02.h', short(b.id), 'client-version-excludes-the-marker', not missing,
+                      'a client version equal to the marker %s is refused by the parser before a Set request is built' % sorted(marks) if not missing else
+                      'the version of the Set request built here comes from the command text and can be %s, the in-conflict-resolution marker: the '
+                      'store saves such a change as it comes (no comparison), so `set-safe k %s v` succeeds against any stored version, the '
+                      'version falls to %s and every later write of the key is refused' % (missing, missing[0], missing[0]), b.loc(X))
+    ck.floor('C02.h', n, 1, 'Set requests built with a version taken from the command text')
